@@ -112,6 +112,7 @@ class Session:
         buf = io.StringIO()
         err = ""
         ret = []
+        fresh = True
         try:
             with contextlib.redirect_stdout(buf):
                 out = do_call(self.lists, e, self.nested)
@@ -120,12 +121,14 @@ class Session:
             elif e["a"]["op"] == "poke":
                 pass
             else:
+                fresh = all(out is not l for l in self.lists)
                 self.lists.append(out)
                 self.note(out)
         except Exception as ex:
             err = type(ex).__name__ + ": " + str(ex)[:80]
         obs = self.observe()
         obs["ret"] = ret
+        obs["fresh"] = fresh
         obs["warn"] = buf.getvalue().count(WARNING)
         obs["err"] = err
         return obs
